@@ -192,7 +192,7 @@ GateJudge(r) ==
     \* positive control: a name that passes the gate does reach the backend
     /\ GatedName(r.nk, r.op = "lookup") \/ Cal(r.calls # <<>>, "gate-control|" \o r.op \o "|" \o r.nk, r))
 
-Init == l = 1 /\ S = Empty /\ hrows = <<>> /\ X = [none |-> TRUE, big |-> {}] /\ pre = <<>> /\ outs = {} /\ creds0 = [none |-> TRUE] /\ sync = TRUE /\ cal = TRUE /\ taint = {}
+Init == l = 1 /\ S = Empty /\ hrows = <<>> /\ X = [none |-> TRUE, big |-> {}, wb |-> FALSE] /\ pre = <<>> /\ outs = {} /\ creds0 = [none |-> TRUE] /\ sync = TRUE /\ cal = TRUE /\ taint = {}
 Step ==
   /\ l <= Len(Rec)
   /\ LET r == Rec[l] IN
@@ -202,7 +202,7 @@ Step ==
             /\ S' = StateOf(r.host_rows)
             /\ hrows' = RowMap(r.host_rows)
             /\ X' = [root |-> RootOf(r.host_rows), no_open |-> r.cfg.eff_no_open, no_opendir |-> r.cfg.eff_no_opendir, xattr |-> r.cfg.xattr,
-                     seal |-> r.cfg.seal, via |-> r.cfg.via, ifh |-> r.cfg.ifh, mode |-> r.mode,
+                     seal |-> r.cfg.seal, via |-> r.cfg.via, ifh |-> r.cfg.ifh, mode |-> r.mode, wb |-> r.cfg.eff_wb,
                      big |-> {r.host_rows[k].id : k \in {j \in DOMAIN r.host_rows : r.host_rows[j].size > 64}}]
             /\ pre' = LET regs == {k \in DOMAIN r.pt_rows : r.pt_rows[k].t = "reg"} IN
                       [i \in {r.pt_rows[k].id : k \in regs} |-> LET z == r.pt_rows[CHOOSE k \in regs : r.pt_rows[k].id = i].size IN [size0 |-> z, cur |-> z]]
